@@ -72,6 +72,8 @@ def check(run):
         srcs += [genprog.closure_program(clrng) for _ in range(20 if q else 300)]
         srcs += [genericgen.Gen(rng).program(n_stmts=4, depth=2)[0] for _ in range(15 if q else 250)]
         srcs += long_line_programs(rng, 8 if q else 80)
+        import matrixgen
+        srcs += matrixgen.sources(run, "c02", per_quick=12)
         srcs += EXTERN_PROGRAMS
         import c18 as c18mod
 
